@@ -222,14 +222,23 @@ where
 			context.output_ids = temp_context.output_ids;
 
 			// Store the updated context
+			let late_locked_context = w.get_private_context(keychain_mask, sl.id.as_bytes())?;
 			{
 				let mut batch = w.batch(keychain_mask)?;
 				batch.save_private_context(sl.id.as_bytes(), &context)?;
 				batch.commit()?;
 			}
 
-			// Now do the actual locking
-			tx_lock_outputs(w, keychain_mask, &sl)?;
+			// Now do the actual locking. When it is refused nothing is reserved, and the stored
+			// context goes back to the late-locked one: left as just saved, a second
+			// finalize_tx would skip this step and sign a transaction whose inputs were
+			// never reserved.
+			if let Err(e) = tx_lock_outputs(w, keychain_mask, &sl) {
+				let mut batch = w.batch(keychain_mask)?;
+				batch.save_private_context(sl.id.as_bytes(), &late_locked_context)?;
+				batch.commit()?;
+				return Err(e);
+			}
 		}
 
 		// Add our contribution to the offset
